@@ -558,10 +558,20 @@ func ruleAttrGuard(p *Prog, r *Report, scope []*ssa.Function, what string) {
 			return false
 		}
 		eachInstr(fn, func(b *ssa.BasicBlock, in ssa.Instruction) {
-			ifi, ok := in.(*ssa.If)
-			if !ok {
+			// a prefix test used as a branch condition, or handed back by a predicate helper
+			var condV ssa.Value
+			switch x := in.(type) {
+			case *ssa.If:
+				condV = x.Cond
+			case *ssa.Return:
+				if len(x.Results) == 1 && isBoolType(x.Results[0].Type()) {
+					condV = x.Results[0]
+				}
+			}
+			if condV == nil {
 				return
 			}
+			ifi := struct{ Cond ssa.Value }{condV}
 			ng := normGuard(guard{ifi.Cond, true})
 			c := cz.of(ng.Cond)
 			isPrefixTest := false
